@@ -8,6 +8,7 @@ import PysersicModel.Driver.EarlyStop
 import PysersicModel.Driver.SkyEstimate
 import PysersicModel.Driver.Validate
 import PysersicModel.Driver.Results
+import PysersicModel.Driver.Loss
 
 open Pysersic
 
@@ -26,6 +27,7 @@ def dispatch (line : String) : String :=
     | "pt" => Driver.priorTypeCmd args
     | "rs" => Driver.resultsFate args
     | "wrap" => Driver.wrapCmd args
+    | "loss" => Driver.lossCmd args
     | _ => "bad-op " ++ cmd
 
 partial def loop (h : IO.FS.Stream) (out : IO.FS.Stream) : IO Unit := do
